@@ -30,30 +30,58 @@ def extract_table(F):
     return leaves, eng
 
 
-def valuations():
-    """All consistent total valuations: presence x equality partition of present values."""
+SAME_FIELDS = ('blake3', 'ftype')      # Fingerprint equality of the property statement: content digest AND entry type
+
+
+def field_mode(leaves):
+    """fields compared directly in the decision function (equality helper written out): tuple of field names, or None when
+    every comparison goes through the `same` vocabulary"""
+    fs = set()
+    for asg, _ in leaves or []:
+        for atom in asg:
+            if atom[0] == 'eq':
+                for x in atom[1:]:
+                    if '.' in str(x):
+                        fs.add(str(x).split('.', 1)[1])
+    if not fs:
+        return None
+    return tuple(sorted(set(SAME_FIELDS) | fs))
+
+
+def _partitions(items):
+    if not items:
+        yield []
+        return
+    first, rest = items[0], items[1:]
+    for p in _partitions(rest):
+        for i in range(len(p)):
+            yield p[:i] + [[first] + p[i]] + p[i + 1:]
+        yield [[first]] + p
+
+
+def valuations(leaves=None):
+    """All consistent total valuations: presence x equality partition of present values.  When the function compares
+    fingerprint fields itself, the partition is taken per field and same(x, y) is the conjunction over SAME_FIELDS."""
     names = ['a', 'b', 'z']
+    fields = field_mode(leaves)
     out = []
     for pres in itertools.product([True, False], repeat=3):
         present = [n for n, p in zip(names, pres) if p]
-        # partitions of `present` as labelings
-        def parts(items):
-            if not items:
-                yield []
-                return
-            first, rest = items[0], items[1:]
-            for p in parts(rest):
-                for i in range(len(p)):
-                    yield p[:i] + [[first] + p[i]] + p[i + 1:]
-                yield [[first]] + p
-        for part in parts(present):
-            cls = {}
-            for i, blk in enumerate(part):
-                for n in blk:
-                    cls[n] = i
+        if not fields:
+            for part in _partitions(present):
+                cls = {n: i for i, blk in enumerate(part) for n in blk}
+                v = {('has', n): p for n, p in zip(names, pres)}
+                for x, y in itertools.combinations(present, 2):
+                    v[('same', x, y)] = cls[x] == cls[y]
+                out.append(v)
+            continue
+        for combo in itertools.product(list(_partitions(present)), repeat=len(fields)):
             v = {('has', n): p for n, p in zip(names, pres)}
+            clss = [{n: i for i, blk in enumerate(part) for n in blk} for part in combo]
             for x, y in itertools.combinations(present, 2):
-                v[('same', x, y)] = cls[x] == cls[y]
+                for f, cls in zip(fields, clss):
+                    v[('eq', '%s.%s' % (x, f), '%s.%s' % (y, f))] = cls[x] == cls[y]
+                v[('same', x, y)] = all(cls[x] == cls[y] for f, cls in zip(fields, clss) if f in SAME_FIELDS)
             out.append(v)
     return out
 
@@ -103,7 +131,8 @@ def lookup(leaves, v):
 def vdesc(v):
     pres = ''.join(n if v[('has', n)] else '-' for n in 'abz')
     eqs = ','.join('%s%s%s' % (k[1], '=' if t else '!=', k[2]) for k, t in sorted(v.items()) if k[0] == 'same')
-    return '%s[%s]' % (pres, eqs)
+    fld = ','.join('%s%s%s' % (k[1], '=' if t else '!=', k[2].split('.', 1)[0]) for k, t in sorted(v.items()) if k[0] == 'eq')
+    return '%s[%s]' % (pres, eqs) + ('{%s}' % fld if fld else '')
 
 
 MIRROR = {'PropagateAtoB': 'PropagateBtoA', 'PropagateBtoA': 'PropagateAtoB', 'DeleteA': 'DeleteB', 'DeleteB': 'DeleteA'}
@@ -115,9 +144,13 @@ def swap(v):
     for k, t in v.items():
         if k[0] == 'has':
             out[('has', m[k[1]])] = t
-        else:
+        elif k[0] == 'same':
             x, y = sorted([m[k[1]], m[k[2]]])
             out[('same', x, y)] = t
+        else:
+            ren = lambda q: m[q.split('.', 1)[0]] + '.' + q.split('.', 1)[1]
+            x, y = sorted([ren(k[1]), ren(k[2])])
+            out[(k[0], x, y)] = t
     return out
 
 
@@ -138,7 +171,7 @@ def no_delete_without_base(ctx, F, rid):
     leaves = table_of(ctx, F, rid)
     if leaves is None:
         return
-    for v in valuations():
+    for v in valuations(leaves):
         if v[('has', 'z')]:
             continue
         hits = lookup(leaves, v)
@@ -161,7 +194,7 @@ def run(ctx):
         return
     ctx.note('decision DAG: %d leaves explored' % len(leaves))
     table = {}
-    vals = valuations()
+    vals = valuations(leaves)
     for v in vals:
         hits = lookup(leaves, v)
         res = hits[0] if len(hits) == 1 else 'ambiguous:%s' % hits
@@ -184,6 +217,13 @@ def run(ctx):
 def same_rule(ctx, F):
     b = F.body('reconcile::Fingerprint::same')
     if b is None:
+        # no equality helper: reconcile_path compares the fields itself, and C18.R1 has judged those comparisons on every
+        # per-field valuation (a digest match with a type mismatch is "not the same" in the table)
+        leaves_ = table_of(ctx, F, 'C18.R2')
+        fm = field_mode(leaves_)
+        if fm:
+            ctx.ok('C18.R2', 'same:table', 'fingerprint equality is written out in reconcile_path over the fields %s and judged by the table' % (fm,), None)
+            return
         ctx.missing('C18.R2', 'reconcile::Fingerprint::same')
     eng = dd.DD(F, {})
     try:
